@@ -58,12 +58,12 @@ def task_sets(which: int):
             A.Foo(p=[leaf, {'a': A.Color.GREEN, 'b': B.Leaf(v='x')}]), A.FooBar(p=leaf), B.Foo(p=leaf),
             A.JFoo(p={'k': (1, 2)}), A.P2(p=[1.5, float('inf')]), A.PFoo(p='post'),
             A.Foo(p=float('nan')), A.Foo(p=['é', {'k': float('nan'), 'z': 'ü€'}], q=A.Leaf(v=float('nan'))), A.JFoo(p='日本'),
-            A.Shape(kind='nested', n=3), A.Shape(kind='large', n=200), A.Shape(kind='enum', n=0), A.Shape(kind='none', n=0)]
-    if which == 1:
-        return [A.Foo(p=v, q=w) for v in (0, '', 'a/b') for w in (None, 2 ** 63, ' ')] + [
-            A.Foo(p={'a': {'b': [A.Leaf(v=A.Color.RED)]}}), A.Shape(kind='scalar', n=7), A.Shape(kind='large', n=1200)] + [
+            A.Shape(kind='nested', n=3), A.Shape(kind='large', n=200), A.Shape(kind='enum', n=0), A.Shape(kind='none', n=0)] + [
             # results that change between executions: a value, then None / falsy values, then a value again
             A.Flip(kind=k, p=1) for k in ('none-second', 'none-first', 'falsy')] + [A.JFlip(kind='none-second', p=2)]
+    if which == 1:
+        return [A.Foo(p=v, q=w) for v in (0, '', 'a/b') for w in (None, 2 ** 63, ' ')] + [
+            A.Foo(p={'a': {'b': [A.Leaf(v=A.Color.RED)]}}), A.Shape(kind='scalar', n=7), A.Shape(kind='large', n=1200)]
     ts = trees(1, TINY, width=2, task_types=('Leaf', 'BLeaf'), inner_leaves=TINY)
     return [A.Foo(p=build(t, types=TYPES)) for t in ts[::2]] + [A.JFoo(p=build(t, types=TYPES)) for t in ts[1::4]]
 
